@@ -253,6 +253,20 @@ func c07Rounds(kind string, rng *Rng, nrounds, width int, versioned bool) {
 				ops = append(ops, cop{"get", []string{hs(b), hs(k), "-"}, func() obsT { return obsT{r: do(s.h, Req{Method: "GET", Path: "/" + b + "/" + k})} }})
 			case x < 78:
 				ops = append(ops, cop{"head", []string{hs(b), hs(k), "-"}, func() obsT { return obsT{r: do(s.h, Req{Method: "HEAD", Path: "/" + b + "/" + k})} }})
+			case multi && x >= 85 && x < 92:
+				// a multi-object delete of two keys (one request, two keys: a cross-key operation)
+				k2 := keys[rng.Intn(nk)]
+				ops = append(ops, cop{"mdel", []string{hs(b), hs(k) + ":," + hs(k2) + ":"}, func() obsT {
+					body := "<Delete><Object><Key>" + xmlEsc(k) + "</Key></Object><Object><Key>" + xmlEsc(k2) + "</Key></Object></Delete>"
+					r := do(s.h, Req{Method: "POST", Path: "/" + b + "?delete", Body: []byte(body)})
+					var deleted []string
+					for _, blk := range xmlBlocks(string(r.Body), "Deleted") {
+						if ks := xmlAll(blk, "Key"); len(ks) > 0 {
+							deleted = append(deleted, ks[0])
+						}
+					}
+					return obsT{r: r, names: deleted}
+				}})
 			case x < 92 || !multi:
 				ops = append(ops, cop{"del", []string{hs(b), hs(k)}, func() obsT { return obsT{r: do(s.h, Req{Method: "DELETE", Path: "/" + b + "/" + k})} }})
 			default:
@@ -366,8 +380,11 @@ func runC07Race(tier string, seed uint64) {
 		c07MultipartRounds(kind, rng, 8)
 		c07CopyStorm(kind, 8, 12)
 		c07AutoBucketFirstUse(kind, 6)
+		c07MetaStorm(kind, 40, 4)
+		c07MultiDeleteStorm(kind, false, 8, 6)
 	}
 	c07Rounds("mem", rng, 8, 4, true)
+	c07MultiDeleteStorm("mem", true, 8, 6)
 	c07VersionStress(rng, 8, 30)
 }
 
@@ -387,6 +404,8 @@ func runC07(tier string, seed uint64) {
 		}
 		c07CopyStorm(kind, 8, 12)
 		c07AutoBucketFirstUse(kind, 6)
+		c07MetaStorm(kind, 40, 4)
+		c07MultiDeleteStorm(kind, false, 8, 6)
 		for rep := 0; rep < reps; rep++ {
 			for _, width := range []int{2, 4, 6, 16} {
 				c07Rounds(kind, rng, rounds, width, false)
@@ -396,6 +415,7 @@ func runC07(tier string, seed uint64) {
 			for rep := 0; rep < reps; rep++ {
 				c07Rounds(kind, rng, rounds, 4, true)
 			}
+			c07MultiDeleteStorm(kind, true, 8, 6)
 		}
 		c07MultipartForced(kind)
 		mpSlowPart("c07", kind)
@@ -406,5 +426,5 @@ func runC07(tier string, seed uint64) {
 	sample("forced interleavings on every backend: a PUT whose body reader is gated (slow uploader) while a GET of the same key, a PUT of another key and a listing by other clients must complete and see the old object; a GET whose ResponseWriter is gated (slow reader) overlapped by an overwrite and by a delete of the same key — the download must deliver in full the object it captured; on the fs backends a slow upload of K/x overlapped by an upload of K (and the other way round): every acknowledged upload is served afterwards")
 	sample("16 clients x 40 simultaneous versioned PUTs (two thirds on one hot key) on the memory backend: every acknowledged upload has a version id of its own under which exactly its bytes are served; the same workload (reduced) runs in a binary built with -race, whose reports on gofakes3 code are violations")
 	sample("multipart: the backend write of a CompleteMultipartUpload is held open while a part upload, a second complete, an abort and a part listing of the same upload arrive (both must finish; responses must have a sequential explanation); rounds of 2..5 simultaneous part uploads / completes / aborts / part listings / reads over 2..3 pending uploads on 1..2 keys, searched for a sequential order on the model")
-	sample("rounds of 2, 4, 6 and 16 simultaneous requests (put with unique bodies / get / head / delete / copy over 1..4 keys; memory backend also with versioning enabled, 4 requests per round): a round is accepted iff some sequential order of its requests reproduces every observed response (status, body, ETag, length, version id) on the model — searched per key for single-key rounds, over all permutations for rounds with a copy")
+	sample("rounds of 2, 4, 6 and 16 simultaneous requests (put with unique bodies / get / head / delete / copy / two-key multi-delete over 1..4 keys; memory backend also with versioning enabled, 4 requests per round): a round is accepted iff some sequential order of its requests reproduces every observed response (status, body, ETag, length, version id) on the model — searched per key for single-key rounds, over all permutations for rounds with a copy")
 }
